@@ -542,6 +542,7 @@ func execC13(sc c13Scenario) core.Outcome {
 		return o
 	}
 	brokenADTS := false // exactly the damage a demuxer reports and skips
+	brokenURL := ""     // the resource that carries it
 	files := map[string][]byte{}
 	for k, v := range b.Files {
 		files[k] = v
@@ -566,7 +567,7 @@ func execC13(sc c13Scenario) core.Outcome {
 		u := bp.SegURIs[len(bp.SegURIs)-1]
 		if c, ok := breakADTS(files[u], 1); ok {
 			files[u] = c
-			brokenADTS = true
+			brokenADTS, brokenURL = true, u
 			o.Labels = append(o.Labels, "ts-rendition-bad-adts")
 		}
 	}
@@ -619,7 +620,7 @@ func execC13(sc c13Scenario) core.Outcome {
 				c, ok := breakADTS(files[u], 1+m.Arg%3)
 				if ok {
 					files[u] = c
-					brokenADTS = true
+					brokenADTS, brokenURL = true, u
 				}
 				continue
 			}
@@ -644,7 +645,7 @@ func execC13(sc c13Scenario) core.Outcome {
 				u := "mix_" + tb.Lead.SegURIs[1]
 				if c, ok := breakADTS(files[u], 1); ok {
 					files[u] = c
-					brokenADTS = true
+					brokenADTS, brokenURL = true, u
 					o.Labels = append(o.Labels, "mixed-rendition-bad-adts")
 				}
 			}
@@ -726,7 +727,19 @@ func execC13(sc c13Scenario) core.Outcome {
 		// paces a unit for more than 10 s: 13 s without any request or delivered unit is a wedge
 		return fail(o, "the client neither finished, failed, requested nor delivered anything for 13 s (it did end after Close: %v): wedged; requests %v", r.WaitErr, reqURLs(r.Requests))
 	}
-	if brokenADTS && len(sc.Muts) <= 1 && errors.Is(r.WaitErr, gohlslib.ErrClientEOS) && len(r.DecodeErrors) == 0 {
+	fetchedBroken := false
+	for _, q := range r.Requests {
+		if brokenURL != "" && strings.HasSuffix(strings.SplitN(q.URL, "?", 2)[0], brokenURL) {
+			fetchedBroken = true
+		}
+	}
+	onlyADTS := true // no other damage that could explain a quiet client
+	for _, m := range sc.Muts {
+		if m.Op != "bad-adts" {
+			onlyADTS = false
+		}
+	}
+	if brokenADTS && fetchedBroken && onlyADTS && errors.Is(r.WaitErr, gohlslib.ErrClientEOS) && len(r.DecodeErrors) == 0 {
 		// "skips the unusable piece (reporting through OnDecodeError ...) or ends with an error"
 		return fail(o, "an audio frame with a broken ADTS header was skipped silently: the client ended with ErrClientEOS and OnDecodeError was never called; requests %v", reqURLs(r.Requests))
 	}
